@@ -493,6 +493,47 @@ def default_objects_isolated(chk):
     core.reset_world()
 
 
+def edited_arguments_followed(chk):
+    """A result is a function of the arguments AS THEY ARE when the call is made: the caller edits, in place, the plain fields
+    of a shot that has already been fired (or zeroed) on a long-used calculator - look / relative / cant angle, the weapon's
+    sight height and twist, the ammunition's muzzle velocity, a wind's speed and direction, the atmosphere object replaced -
+    and fires again: the result is that of freshly built equal objects on a fresh calculator."""
+    m = impl.pb()
+    U = m.Unit
+    core.reset_world()
+
+    def build(st):
+        dm = m.DragModel(0.3, m.TableG7, U.Grain(168), U.Inch(0.308), U.Inch(1.2))
+        return m.Shot(m.Weapon(U.Inch(st["sight"]), U.Inch(st["twist"])), m.Ammo(dm, U.FPS(st["mv"])), U.Degree(st["look"]), U.Mil(st["rel"]),
+                      U.Degree(st["cant"]), atmo=m.Atmo(U.Foot(st["alt"]), U.InHg(29.5), U.Fahrenheit(50), 20),
+                      winds=[m.Wind(U.MPH(st["w"]), U.Degree(st["wd"]), U.Yard(300))])
+    fire = lambda c, sh: tuple(scen.row_fp(r) for r in c.fire(sh, U.Foot(900), U.Foot(300), extra_data=True).trajectory)
+    st = {"sight": 2.0, "twist": 10.0, "mv": 2700.0, "look": 0.0, "rel": 0.5, "cant": 0.0, "alt": 500.0, "w": 5.0, "wd": 90.0}
+    calc = m.Calculator(_config={"max_calc_step_size_feet": 2.0})
+    shot = build(st)
+    fire(calc, shot)
+    calc.set_weapon_zero(shot, U.Yard(100))
+    st_zero = float(shot.weapon.zero_elevation.raw_value)
+    edits = [("look", 6.0, lambda v: setattr(shot, "look_angle", U.Degree(v))), ("rel", -1.5, lambda v: setattr(shot, "relative_angle", U.Mil(v))),
+             ("cant", 12.0, lambda v: setattr(shot, "cant_angle", U.Degree(v))), ("sight", 3.5, lambda v: setattr(shot.weapon, "sight_height", U.Inch(v))),
+             ("twist", -9.0, lambda v: setattr(shot.weapon, "twist", U.Inch(v))), ("mv", 2450.0, lambda v: setattr(shot.ammo, "mv", U.FPS(v))),
+             ("w", 14.0, lambda v: setattr(shot.winds[0], "velocity", U.MPH(v))), ("wd", 250.0, lambda v: setattr(shot.winds[0], "direction_from", U.Degree(v))),
+             ("alt", 4200.0, lambda v: setattr(shot, "atmo", m.Atmo(U.Foot(v), U.InHg(29.5), U.Fahrenheit(50), 20)))]
+    for name, val, do in edits:
+        do(val)
+        st[name] = val
+        got = impl.outcome(fire, calc, shot)
+        fr = build(st)
+        fr.weapon.zero_elevation = U.Radian(st_zero)
+        want = fire(m.Calculator(_config={"max_calc_step_size_feet": 2.0}), fr)
+        chk.count(1, ("edited-argument", name))
+        chk.stratum("shot_fields_edited_in_place_between_fires")
+        if got[0] != "ok" or got[1] != want:
+            chk.violation("C10.EditedArgumentNotFollowed", {"source": "edited-arguments", "field": name},
+                          {"state": dict(st), "outcome": got[0] if got[0] != "ok" else "rows differ from a freshly built equal shot"})
+    core.reset_world()
+
+
 def tables_in_callers_order(chk):
     """The non-mutation clause over the tables a caller may hand in: a drag table is the caller's LIST - in descending Mach
     order, rotated, shuffled - and every computation (fire, zeroing, elevation for a target, danger space) leaves it the same
@@ -553,6 +594,7 @@ def run(chk: core.Check, replay=None) -> None:
     thorough = chk.tier == "thorough"
     default_objects_isolated(chk)
     tables_in_callers_order(chk)
+    edited_arguments_followed(chk)
     d = dict(GRAPH, DirtRule='"ignored"', MaxOps=4 if thorough else 3)
     body = ("SPECIFICATION Spec\nINVARIANT C10_HistoryIndependent\nPROPERTY C10_ZeroResultIndependent\nPROPERTY C10_OnlyZeroWritesZero\n"
             "INVARIANT C10_NothingElseMutates\nPROPERTY C10_FailedZeroKeepsZero\n")
@@ -632,7 +674,7 @@ def run(chk: core.Check, replay=None) -> None:
     chk.sample({"history": behs[0]})
     threads_part(chk, thorough, rng)
     chk.require_strata(["op_Fire", "op_FireRaises", "op_Zero", "op_ZeroRaises", "op_Danger", "op_Build", "op_EditTable", "op_FireBadTable",
-                        "default_objects_edited", "earlier_results_rechecked", "table_edited_in_place", "edit_kind_table", "edit_kind_powder", "edit_kind_dims", "edit_between_computations_on_one_calculator", "unservable_zero_request_then_computation_on_one_calculator", "quantities_redisplayed_and_preferences_switched", "zero_written", "schedule", "schedule_equal_configurations", "schedule_different_configurations",
+                        "default_objects_edited", "shot_fields_edited_in_place_between_fires", "earlier_results_rechecked", "table_edited_in_place", "edit_kind_table", "edit_kind_powder", "edit_kind_dims", "edit_between_computations_on_one_calculator", "unservable_zero_request_then_computation_on_one_calculator", "quantities_redisplayed_and_preferences_switched", "zero_written", "schedule", "schedule_equal_configurations", "schedule_different_configurations",
                         "free_running"])
     chk.exhaustive = False
     chk.rule.append("TLC-simulated session histories of 6 operations over 3 shots (shared weapon / shared ammunition, with and without "
